@@ -38,14 +38,17 @@ type Plan struct {
 	Flavor   string `json:"flavor"` // plain | queue
 	Op       string `json:"op"`
 	Relation string `json:"relation"`
-	Owner    string `json:"owner"`    // state of the target
-	Phase    int    `json:"phase"`    // phase of the target if it exists
-	Fin      bool   `json:"fin"`      // target carries a finalizer
-	NoOwner  bool   `json:"noowner"`  // create/modify with the no-owner option
-	Explicit int    `json:"explicit"` // teardown/destroy: 0 none, 1 explicit "" owner, 2 explicit foreign owner, 3 explicit own name
-	ExpPhase int    `json:"expphase"` // modify: 0 default 1 any 2 tearingDown
-	Cached   bool   `json:"cached"`
-	Noise    int    `json:"noise"` // extra unrelated declarations
+	// Relation2, when set, adds the declarations of a second relation (declarations combine: each check must hold
+	// on one single declaration, not on properties collected from different ones).
+	Relation2 string `json:"relation2,omitempty"`
+	Owner     string `json:"owner"`    // state of the target
+	Phase     int    `json:"phase"`    // phase of the target if it exists
+	Fin       bool   `json:"fin"`      // target carries a finalizer
+	NoOwner   bool   `json:"noowner"`  // create/modify with the no-owner option
+	Explicit  int    `json:"explicit"` // teardown/destroy: 0 none, 1 explicit "" owner, 2 explicit foreign owner, 3 explicit own name
+	ExpPhase  int    `json:"expphase"` // modify: 0 default 1 any 2 tearingDown
+	Cached    bool   `json:"cached"`
+	Noise     int    `json:"noise"` // extra unrelated declarations
 }
 
 const (
@@ -58,17 +61,18 @@ const (
 // Gen draws a random case.
 func Gen(t *rapid.T) Plan {
 	return Plan{
-		Flavor:   rapid.SampledFrom([]string{"plain", "queue"}).Draw(t, "flavor"),
-		Op:       rapid.SampledFrom(Ops).Draw(t, "op"),
-		Relation: rapid.SampledFrom(Relations).Draw(t, "relation"),
-		Owner:    rapid.SampledFrom(OwnerStates).Draw(t, "owner"),
-		Phase:    rapid.SampledFrom([]int{0, 0, 1}).Draw(t, "phase"),
-		Fin:      rapid.IntRange(0, 3).Draw(t, "fin") == 0,
-		NoOwner:  rapid.IntRange(0, 3).Draw(t, "noowner") == 0,
-		Explicit: rapid.SampledFrom([]int{0, 0, 0, 1, 2, 3}).Draw(t, "explicit"),
-		ExpPhase: rapid.IntRange(0, 2).Draw(t, "expphase"),
-		Cached:   rapid.Bool().Draw(t, "cached"),
-		Noise:    rapid.IntRange(0, 3).Draw(t, "noise"),
+		Relation2: rapid.SampledFrom(append([]string{"", "", ""}, Relations...)).Draw(t, "relation2"),
+		Flavor:    rapid.SampledFrom([]string{"plain", "queue"}).Draw(t, "flavor"),
+		Op:        rapid.SampledFrom(Ops).Draw(t, "op"),
+		Relation:  rapid.SampledFrom(Relations).Draw(t, "relation"),
+		Owner:     rapid.SampledFrom(OwnerStates).Draw(t, "owner"),
+		Phase:     rapid.SampledFrom([]int{0, 0, 1}).Draw(t, "phase"),
+		Fin:       rapid.IntRange(0, 3).Draw(t, "fin") == 0,
+		NoOwner:   rapid.IntRange(0, 3).Draw(t, "noowner") == 0,
+		Explicit:  rapid.SampledFrom([]int{0, 0, 0, 1, 2, 3}).Draw(t, "explicit"),
+		ExpPhase:  rapid.IntRange(0, 2).Draw(t, "expphase"),
+		Cached:    rapid.Bool().Draw(t, "cached"),
+		Noise:     rapid.IntRange(0, 3).Draw(t, "noise"),
 	}
 }
 
@@ -92,8 +96,58 @@ func Matrix() []Plan {
 	return out
 }
 
-// decl builds the declarations for the relation.
+// PairMatrix enumerates operation x unordered pair of distinct relations x {ownerless, foreign} x flavour (uncached).
+func PairMatrix() []Plan {
+	var out []Plan
+
+	for _, fl := range []string{"plain", "queue"} {
+		for _, op := range Ops {
+			for i, r1 := range Relations {
+				for _, r2 := range Relations[i+1:] {
+					for _, ow := range []string{"ownerless", "foreign"} {
+						out = append(out, Plan{Flavor: fl, Op: op, Relation: r1, Relation2: r2, Owner: ow})
+					}
+				}
+			}
+		}
+	}
+
+	return out
+}
+
+// decl builds the declarations for the relation(s).
 func decl(p Plan) (ins []sim.InSpec, outs []sim.OutSpec) {
+	ins, outs = declRel(p, p.Relation)
+
+	if p.Relation2 != "" && p.Relation2 != p.Relation {
+		i2, o2 := declRel(p, p.Relation2)
+		ins, outs = append(ins, i2...), append(outs, o2...)
+	}
+
+	q := p.Flavor == "queue"
+	weak, strong := controller.InputWeak, controller.InputStrong
+
+	if q {
+		weak, strong = controller.InputQMappedDestroyReady, controller.InputQPrimary
+	}
+
+	// noise: declarations on other types
+	if p.Noise >= 1 {
+		outs = append(outs, sim.OutSpec{Typ: "TC", Kind: controller.OutputShared})
+	}
+
+	if p.Noise >= 2 {
+		ins = append(ins, sim.InSpec{NS: "n1", Typ: "TB", Kind: strong})
+	}
+
+	if p.Noise >= 3 {
+		ins = append(ins, sim.InSpec{NS: "n2", Typ: "TC", ID: tid, Kind: weak})
+	}
+
+	return ins, outs
+}
+
+func declRel(p Plan, rel string) (ins []sim.InSpec, outs []sim.OutSpec) {
 	q := p.Flavor == "queue"
 	weak, strong, dready := controller.InputWeak, controller.InputStrong, controller.InputDestroyReady
 
@@ -102,7 +156,7 @@ func decl(p Plan) (ins []sim.InSpec, outs []sim.OutSpec) {
 		weak, strong, dready = controller.InputQMappedDestroyReady, controller.InputQPrimary, controller.InputQMappedDestroyReady
 	}
 
-	switch p.Relation {
+	switch rel {
 	case "output-excl":
 		outs = append(outs, sim.OutSpec{Typ: tt, Kind: controller.OutputExclusive})
 	case "output-shared":
@@ -131,19 +185,6 @@ func decl(p Plan) (ins []sim.InSpec, outs []sim.OutSpec) {
 
 		ins = append(ins, sim.InSpec{NS: "n1", Typ: tt, Kind: k})
 	case "unrelated":
-	}
-
-	// noise: declarations on other types
-	if p.Noise >= 1 {
-		outs = append(outs, sim.OutSpec{Typ: "TC", Kind: controller.OutputShared})
-	}
-
-	if p.Noise >= 2 {
-		ins = append(ins, sim.InSpec{NS: "n1", Typ: "TB", Kind: strong})
-	}
-
-	if p.Noise >= 3 {
-		ins = append(ins, sim.InSpec{NS: "n2", Typ: "TC", ID: tid, Kind: weak})
 	}
 
 	return ins, outs
@@ -375,6 +416,14 @@ func runBubble(p Plan) (v hk.Verdict) {
 		regErr = w.RT.RegisterQController(&hookProbe{name: me, ins: ins, outs: outs, hook: func(ctx context.Context, r controller.QRuntime) { do(ctx, r) }})
 	}
 
+	if regErr != nil && p.Relation2 != "" && p.Relation2 != p.Relation {
+		// the two sets of declarations conflict with each other (C17's subject): nothing to check here
+		v.Label("pair-rejected-at-registration")
+		v.Outcome = "registration rejected: " + regErr.Error()
+
+		return v
+	}
+
 	if regErr != nil {
 		v.Failf("harness: registration of %+v / %+v rejected: %v", ins, outs, regErr)
 
@@ -400,7 +449,7 @@ func runBubble(p Plan) (v hk.Verdict) {
 	tk := model.Key{NS: "n1", Typ: tt, ID: tid}
 	tgt := before[tk]
 
-	desc := fmt.Sprintf("%s %s on %s target %s (explicit=%d noowner=%v expphase=%d cached=%v)", p.Flavor, p.Op, p.Relation, tgt, p.Explicit, p.NoOwner, p.ExpPhase, p.Cached)
+	desc := fmt.Sprintf("%s %s on %s+%q target %s (explicit=%d noowner=%v expphase=%d cached=%v)", p.Flavor, p.Op, p.Relation, p.Relation2, tgt, p.Explicit, p.NoOwner, p.ExpPhase, p.Cached)
 
 	classified := func(err error) bool {
 		c := model.Classify(err)
@@ -419,6 +468,33 @@ func runBubble(p Plan) (v hk.Verdict) {
 		}
 	} else if isFin {
 		allowed = acc.finalizers
+	}
+
+	if p.Relation2 != "" && p.Relation2 != p.Relation {
+		v.Label("pair-of-relations")
+
+		// the combination matters when the two relations alone give different answers for this operation
+		pick := func(a access) bool {
+			switch {
+			case p.Op == "List" || p.Op == "ListUncached":
+				return a.readList
+			case isRead:
+				return a.readGet
+			case isFin:
+				return a.finalizers
+			}
+
+			return a.write
+		}
+
+		i1, o1 := declRel(p, p.Relation)
+		i2, o2 := declRel(p, p.Relation2)
+
+		if pick(accessModel(i1, o1)) != pick(accessModel(i2, o2)) {
+			v.NonTrivial = true
+
+			v.Label("pair-with-different-answers")
+		}
 	}
 
 	// commits outside the target key are never acceptable
